@@ -222,6 +222,11 @@ class PathTemplateWriter:
 
             # insert the rotation stamp into the new filename.
             dst = os.path.join(src_dir, "{fname}.{stamp}.{ext}".format(**locals()))
+            # Do not overwrite a file that was rotated earlier within the same second
+            count = 0
+            while os.path.exists(dst):
+                count += 1
+                dst = os.path.join(src_dir, "{fname}.{stamp}.{count}.{ext}".format(**locals()))
             log.info("RENAME {!r} -> {!r}".format(src, dst))
             os.rename(src, dst)
 
